@@ -164,6 +164,10 @@ IteratorDictID *StringDictionaryFMINDEX::locateSubstr(uchar *str, uint strLen) {
     return NULL;
   }
 
+  // The backward search starts at the last symbol of the pattern
+  if (strLen == 0)
+    return new IteratorDictIDContiguous(NORESULT, NORESULT);
+
   size_t *occs;
   uint num_occ;
   num_occ = fm_index->locate(str, (uint)strLen, &occs);
@@ -205,6 +209,9 @@ IteratorDictString *StringDictionaryFMINDEX::extractSubstr(uchar *str,
         << std::endl;
     return NULL;
   }
+
+  if (strLen == 0)
+    return NULL;
 
   size_t *occs;
   uint num_occ;
